@@ -604,7 +604,10 @@ def report(chk, eng, rn, stt, limit=4):
 def run(tier, seed):
     chk = core.Check("C16", tier, seed)
     thorough = tier == "thorough"
-    n_main, n_free, rounds = (10800, 1200, 3) if thorough else (2250, 250, 1)
+    n_main, n_free, rounds = (8100, 900, 3) if thorough else (2250, 250, 1)
+    scale = float(os.environ.get("C16_SCALE", "1") or 1)   # development knob (smoke-testing a tier); evidence records the real counts
+    if scale != 1:
+        n_main, n_free = max(20, int(n_main * scale)), max(5, int(n_free * scale))
     eng = diffrun.Engines(tag="c16")
     rn = Runner(eng)
     stt = Stats()
@@ -629,11 +632,11 @@ def run(tier, seed):
                  "and as single script + phased scripts on V8; non-trivial = jobs printed at least 3 lines after `sync-end`, at least 3 schedule comparisons were "
                  "conclusive and all agreed; distinct by source hash. A budgeted run whose evaluation never yielded is counted under async_runs_without_yield only.",
             samples=stt.samples,
-            extra={"programs": n_main + n_free, "programs_without_v8_oracle": n_free, "schedule_rounds_per_program": rounds,
+            extra={"exhaustive": False, "programs": n_main + n_free, "programs_without_v8_oracle": n_free, "schedule_rounds_per_program": rounds,
                    "feature_counts": dict(sorted(stt.feats.items())), "comparisons": stt.comparisons,
                    "async_runs_with_yields": stt.async_yielding, "async_runs_without_yield": stt.async_trivial, "max_yields_in_one_evaluation": stt.max_yields,
                    "budget_histogram_log2": dict(sorted(stt.budgets.items())), "run_jobs_async_yields": stt.drain_yields, "candidates": len(stt.candidates)},
-            min_nontrivial=2000 if thorough else 300)
+            min_nontrivial=int((2000 if thorough else 300) * min(1.0, scale)))
     finally:
         eng.close()
 
